@@ -572,6 +572,49 @@ def _place_key(fd, l):
     return None
 
 
+def loop_exit_gates(eng, ga, lb, lfd, h, blocks):
+    """per edge that leaves the loop (to a block that goes on): the tests with a known outcome that hold there - the test on the leaving edge and
+    the tests of the same round that edge is reached through (switches of the loop that dominate the leaving block and have one side only that
+    gets there without starting another round)"""
+    from flow import classify_switch
+
+    def edge_gates(x, s_):
+        out = []
+        t_ = lb.blocks[x]['term']
+        if t_['k'] == 'switch':
+            g = classify_switch(eng, lfd, x)
+            g.edge = (x, s_)
+            g.dom = True
+            zero_t = [b_ for v_, b_ in t_['targets'] if v_ == '0']
+            if zero_t and len(t_['targets']) == 1 and zero_t[0] != t_['otherwise']:
+                raw = (s_ != zero_t[0])
+                g.truth = (not raw) if g.negated else raw
+            out.extend(ga._flatten(g))
+        return out
+
+    def within_round(frm):
+        seen_, st_ = set(), [frm]
+        while st_:
+            y = st_.pop()
+            if y in seen_ or y not in blocks or y == h:
+                continue
+            seen_.add(y)
+            st_.extend(lb.succ[y])
+        return seen_
+    res = []
+    leaving = [(x, s_) for x in sorted(blocks) for s_ in lb.succ[x] if s_ not in blocks and not lb.diverges(s_) and not lb.blocks[s_]['cleanup']]
+    for x, s_ in leaving:
+        egs = edge_gates(x, s_)
+        for a in sorted(blocks):
+            if a == x or lb.blocks[a]['term']['k'] != 'switch' or not lb.dominates(a, x):
+                continue
+            sides = [y for y in dict.fromkeys(lb.succ[a]) if y == x or x in within_round(y)]
+            if len(sides) == 1:
+                egs.extend(edge_gates(a, sides[0]))
+        res.append(((x, s_), egs))
+    return res
+
+
 CMP_CALLS = ('Ord::cmp', 'PartialOrd::partial_cmp', 'PartialOrd::gt', 'PartialOrd::ge', 'PartialOrd::lt', 'PartialOrd::le', 'PartialEq::eq', 'PartialEq::ne')
 GCD_CALLS = ('gcd', 'gcd_ref', 'gcd_mut', 'gcd_u')
 
@@ -624,6 +667,50 @@ def loop_unit_tests(prog, eng, b, fd, blocks):
                     names = names | outer          # the helper's operands come from the caller's candidate
                 judge(names, at, '%s>%s' % (tgt.split('::')[-1], hcal.split('::')[-1]))
     return cand, gcd
+
+
+def loop_exit_sense(prog, eng, ga, b, fd, h, blocks):
+    """Do the comparisons with 1 that a generate-and-test loop makes in its own body *hold the right way* on every edge that leaves it: the
+    candidate strictly above 1, the gcd equal to 1?  (`!(a && b)` turned into `!(a || b)`, `== false` into `!= false`, `== Equal` into `!= Equal`
+    keep both comparisons in the loop.)  A kind of comparison the loop body makes itself has to be established on every leaving edge; one that
+    sits in a predicate the loop calls is not judged here.  None when the body makes no such comparison."""
+    import rf_senses
+    edges = loop_exit_gates(eng, ga, b, fd, h, blocks)
+    if not edges:
+        return None, []
+    detail = []
+    per_edge = []
+    roles = set()
+    for (x, s_), gs in edges:
+        est = {'cand': False, 'gcd': False}
+        for g in gs:
+            if g.fn != b.path or g.kind not in ('call', 'cmp') or not g.oargs or ('c', '1') not in g.all_atoms():
+                continue
+            if g.kind == 'call' and not (g.what or '').endswith(CMP_CALLS):
+                continue
+            names = _slice_callees(b, fd, [o for o in g.oargs if o.get('k') in ('copy', 'move')])
+            role = 'gcd' if names & set(GCD_CALLS) else 'cand' if any(nm.startswith(('secure_pow_mod', 'pow_mod')) for nm in names) else None
+            if role is None:
+                continue
+            roles.add(role)
+            r = rf_senses.relation_of(b, g, eng)
+            if r is None:
+                # `x.cmp(&1) == Ordering::Greater`: which Ordering it is compared with is a promoted constant the facts do not spell out; what
+                # can be said is that the equality with it *holds* on the leaving edge
+                if (g.what or '').split('::')[-1] in ('cmp', 'partial_cmp') and g.truth is True:
+                    est[role] = True
+                detail.append('%s: outcome %s' % ((g.what or '').split('::')[-1], g.truth))
+                continue
+            if role == 'gcd' and r[0] == '==' and ('#1',) in r[1:]:
+                est['gcd'] = True
+            if role == 'cand' and r[0] == '<' and r[1] == ('#1',):
+                est['cand'] = True
+            detail.append(rf_senses._fmt(r))
+        per_edge.append(est)
+    if not roles:
+        return None, []
+    ok_all = all(e_[r_] for e_ in per_edge for r_ in roles)
+    return ok_all, sorted(set(detail))[:6]
 
 
 def _captured_atoms(b, fd, closure):
@@ -756,6 +843,28 @@ def rule_key_generation(ctx, cfg='prod-all'):
                                         prim = True
                                     else:
                                         tested_other = True
+            # the sense of that comparison on the edges that leave the search: `is_probably_prime(..) != No` holds (`== No` leaves with a composite)
+            sense_ok = True
+            seen_cmp = False
+            per_edge_ = []
+            for h, bl in loops:
+                if any(bi in bl2 and len(bl2) < len(bl) for _h2, bl2 in b.natural_loops()):
+                    continue
+                for (ex_, es_), gs_ in loop_exit_gates(eng, ga, b, fd, h, bl):
+                    here = None
+                    for g2 in gs_:
+                        if 'PartialEq' in (g2.what or '') and g2.oargs and g2.oargs[0]['k'] in ('copy', 'move') and not g2.oargs[0]['pl'].get('p') and g2.fn == b.path:
+                            oc = origin_call(zf, g2.oargs[0]['pl']['l'])
+                            if oc is not None and (oc.get('callee') or '').endswith('is_probably_prime'):
+                                seen_cmp = True
+                                differs = (g2.truth is True) if (g2.what or '').endswith('::ne') else (g2.truth is False)
+                                here = differs if here is None else (here or differs)
+                    per_edge_.append(here)
+            if seen_cmp and any(x_ is not True for x_ in per_edge_):
+                sense_ok = False
+            yield Ob('RF-Q', '%s#search[%d]:loop-exit-sense' % (ekey, k), sense_ok or not seen_cmp,
+                     'on every edge that leaves the search the primality verdict of the candidate differs from `No`', '%s L%s' % (b.file(), t['line']),
+                     fact={'context': ctxname, 'comparison_seen_on_leaving_edges': seen_cmp, 'holds_on_every_leaving_edge': sense_ok}, expected='true')
             yield Ob('RF-Q', '%s#search[%d]:loop-exit' % (ekey, k), in_loop and prim,
                      "the search loop is left only after is_probably_prime(candidate) != No", '%s L%s' % (b.file(), t['line']),
                      fact={'context': ctxname, 'in_loop': in_loop, 'exit_compares_is_probably_prime_of_this_candidate': prim, 'exit_tests_a_different_number': tested_other}, expected='true')
@@ -789,6 +898,10 @@ def rule_key_generation(ctx, cfg='prod-all'):
     qr_tests, gcd_tests = loop_unit_tests(prog, eng, b, fd, in_loop)
     gcd_calls = gcd_tests
     has_gt = has_gt or any('>' in w for w in qr_tests + gcd_tests)
+    senses = [loop_exit_sense(prog, eng, ctx.gates(cfg), b, fd, h_, bl_) for h_, bl_ in b.natural_loops()]
+    sense_bad = [d_ for ok_, d_ in senses if ok_ is False]
+    yield Ob('RF-Q', '%s#exit-sense' % RQ, not sense_bad, 'on every edge that leaves the loop the candidate is above 1 and its gcd with n equals 1 (the comparisons hold, the right way round)', b.span,
+             fact={'loops': len(senses), 'comparisons_on_a_leaving_edge_that_do_not_establish_it': sense_bad[:2]}, expected='qr > 1 and gcd == 1 hold on exit')
     yield Ob('RF-Q', '%s#exit-condition' % RQ, len(qr_tests) >= 1 and len(gcd_tests) >= 1 and len(gcd_calls) >= 1 and has_gt,
              'the loop is left only with qr > 1 and gcd(qr, n) == 1', b.span,
              fact={'candidate_compared_with_1': qr_tests, 'gcd_compared_with_1': gcd_tests, 'gcd_calls': len(gcd_calls)},
@@ -844,6 +957,7 @@ def rule_key_generation(ctx, cfg='prod-all'):
     gbodies = [ck] + [cb for cb in prog.closures_of(CK)]
     pows, okp = [], True
     loop_tests = []
+    gi_senses = []
     for gb in gbodies:
         gfd = eng.fndep(gb.path)
         gz = ctx.zone(cfg).zf(gb.path)
@@ -864,7 +978,12 @@ def rule_key_generation(ctx, cfg='prod-all'):
             for h_, blocks in gb.natural_loops():
                 if bi in blocks:
                     loop_tests.append(loop_unit_tests(prog, eng, gb, gfd, blocks))
+                    if not any(bi in bl2 and len(bl2) < len(blocks) for _h2, bl2 in gb.natural_loops()):
+                        gi_senses.append(loop_exit_sense(prog, eng, ga, gb, gfd, h_, blocks))       # (the innermost loop around the power)
     okp = bool(pows) and okp
+    gi_bad = [d_ for ok_, d_ in gi_senses if ok_ is False]
+    yield Ob('RF-Q', '%s#g_i-exit-sense' % CK, not gi_bad, 'on every edge that leaves the search for g_i the candidate is above 1 and its gcd with N equals 1', ck.span,
+             fact={'loops': len(gi_senses), 'comparisons_on_a_leaving_edge_that_do_not_establish_it': gi_bad[:2]}, expected='g_i > 1 and gcd == 1 hold on exit')
     yield Ob('RF-Q', '%s#g_i=h^f' % CK, okp, 'every g_i candidate is a power of h (so it lies in the subgroup generated by h)', ck.span, fact=len(pows), expected='base h at every pow_mod site')
     pushes = [(bi, t) for bi, t in ck.calls() if (t.get('callee') or '') == 'std::vec::Vec::<T, A>::push']
     if not pushes and loop_tests:
